@@ -84,22 +84,37 @@ pub fn gen_admin(r: &mut Rng, g: &RawGen, rule_counter: &mut u32, allow_unwind: 
 
 /// a line for the C04 workload: all feature families, plus lines that depend
 /// on (shared-pool) variable names, plus lines matching the custom rules
-fn gen_line(r: &mut Rng, g: &RawGen, lang: &str, dec: &str) -> String {
+/// operator words of BOTH languages, used regardless of the client's language: a word means an
+/// operator in one language and nothing in the other
+fn alias_line(r: &mut Rng, g: &RawGen, dec: &str) -> String {
+    let w = *r.pick(&["times", "multiply", "divide", "add", "sum", "append", "exclude", "minus", "kere", "carpi", "carp", "ekle", "topla", "toplam", "eksi", "cikar", "cikart", "euro"]);
+    format!("{} {} {}", g.number(r, dec), w, g.number(r, dec))
+}
+
+fn rule_line(r: &mut Rng, g: &RawGen, dec: &str) -> String {
+    let kw = *r.pick(&["zork", "blip", "quux", "frob"]);
+    match r.below(5) { 0 => format!("{} {}", kw, g.number(r, dec)), 1 => format!("{} {}", g.number(r, dec), kw), 2 => format!("{} {}", kw, r.pick(NAME_WORDS)), 3 => format!("{} {}", g.money(r, dec), kw), _ => format!("{} {}% {}", kw, r.below(100), kw) }
+}
+
+fn gen_line(r: &mut Rng, g: &RawGen, lang: &str, dec: &str, rule_heavy: bool) -> String {
     let name = |r: &mut Rng| -> String { if r.chance(3, 4) { r.pick(&NAME_WORDS[..6]).to_string() } else { g.name(r) } };
+    if rule_heavy && r.chance(1, 3) { return rule_line(r, g, dec); }
     match r.below(14) {
         0 | 1 => format!("{} = {}", name(r), g.any_value(r, lang, dec)),
         2 | 3 => format!("{} {} {}", name(r), r.pick(&["+", "-", "*", "/"]), g.any_value(r, lang, dec)),
         4 => name(r),
         5 => format!("{} = {} {} {}", name(r), name(r), r.pick(&["+", "*", "-"]), g.number(r, dec)),
-        6 => { let kw = *r.pick(&["zork", "blip", "quux", "frob"]); match r.below(5) { 0 => format!("{} {}", kw, g.number(r, dec)), 1 => format!("{} {}", g.number(r, dec), kw), 2 => format!("{} {}", kw, r.pick(NAME_WORDS)), 3 => format!("{} {}", g.money(r, dec), kw), _ => format!("{} {}% {}", kw, r.below(100), kw) } }
+        6 => rule_line(r, g, dec),
         7 => { let f = r.below(3); format!("{} fam{}u{} to fam{}u{}", r.below(64), f, 1 + r.below(4), f, 1 + r.below(4)) }
         8 => g.failing_line(r),
         9 => String::new(),
+        10 | 11 => alias_line(r, g, dec),
         _ => g.any_line(r, lang, dec),
     }
 }
 
-fn gen_text(r: &mut Rng, g: &RawGen, lang: &str, dec: &str, max_lines: u64, probes: &mut Vec<(u32, f64)>, probe_counter: &mut u32, may_probe: bool) -> TextSpec {
+#[allow(clippy::too_many_arguments)]
+fn gen_text(r: &mut Rng, g: &RawGen, lang: &str, dec: &str, max_lines: u64, probes: &mut Vec<(u32, f64)>, probe_counter: &mut u32, may_probe: bool, rule_heavy: bool) -> TextSpec {
     let n = match r.below(8) { 0 => 0, 1 => 1, _ => 1 + r.below(max_lines) } as usize;
     let mut lines = Vec::new();
     for _ in 0..n {
@@ -113,8 +128,12 @@ fn gen_text(r: &mut Rng, g: &RawGen, lang: &str, dec: &str, max_lines: u64, prob
                 probes.push((*probe_counter, v));
                 lines.push(Line::Sem(Stmt::Assign { name: NameUse { words: vec![probe_name(*probe_counter)] }, e: Expr::Lit(Lit::Num(NumLit::int(v as i64))) }));
             }
+        } else if !lines.is_empty() && r.chance(1, 8) {
+            // the same line again, later in the same text
+            let again = r.pick(&lines).clone();
+            if matches!(again, Line::Raw(_)) { lines.push(again); } else { lines.push(Line::Raw(gen_line(r, g, lang, dec, rule_heavy))); }
         } else {
-            lines.push(Line::Raw(gen_line(r, g, lang, dec)));
+            lines.push(Line::Raw(gen_line(r, g, lang, dec, rule_heavy)));
         }
     }
     let crlf = (0..lines.len()).map(|_| r.chance(1, 5)).collect();
@@ -145,6 +164,14 @@ impl Check for C04 {
         let admin_w = *r.pick(&[0u32, 1, 2, 4]);
         let max_lines = *r.pick(&[2u64, 4, 8]);
         let mut dec = ",".to_string();
+        // swarm: a third of the runs are rule-heavy (rules registered up front, many matching lines)
+        let rule_heavy = r.chance(1, 3);
+        if rule_heavy {
+            for _ in 0..(2 + r.below(3)) {
+                let op = loop { let op = gen_admin(&mut r, &g, &mut rule_counter, faults); if matches!(op, AdminOp::AddRule { .. }) { break op; } };
+                events.push(Event { actor: ADMIN, op: Op::Admin(op), clock: ClockScript::Frozen { t } });
+            }
+        }
         let total: u64 = cls.iter().map(|c| c.steps).sum();
         let mut budget = total + 30;
         while cls.iter().any(|c| c.steps > 0) && budget > 0 {
@@ -168,11 +195,11 @@ impl Check for C04 {
                     if r.chance(1, 6) { c.lang = r.pick(LANGS).to_string(); }
                     events.push(Event { actor: who as u8, op: Op::SessionNew { lang: c.lang.clone() }, clock: ClockScript::Frozen { t } });
                 }
-                let text = gen_text(&mut r, &g, &c.lang, &dec, max_lines, &mut c.probes, &mut probe_counter, true);
+                let text = gen_text(&mut r, &g, &c.lang, &dec, max_lines, &mut c.probes, &mut probe_counter, true, rule_heavy);
                 events.push(Event { actor: who as u8, op: Op::SessionText { text }, clock: ClockScript::Frozen { t } });
             } else {
                 let mut none = vec![];
-                let mut text = gen_text(&mut r, &g, &c.lang, &dec, max_lines, &mut none, &mut probe_counter, false);
+                let mut text = gen_text(&mut r, &g, &c.lang, &dec, max_lines, &mut none, &mut probe_counter, false, rule_heavy);
                 // isolation probes: a one-shot text may try to read a probe bound in some session
                 if r.chance(1, 5) {
                     let all: Vec<(u32, f64)> = cls.iter().flat_map(|c| c.probes.iter().cloned()).collect();
